@@ -8,6 +8,7 @@ import (
 
 	"github.com/yaricom/goNEAT/v4/neat"
 	"github.com/yaricom/goNEAT/v4/neat/genetics"
+	"github.com/yaricom/goNEAT/v4/neat/network"
 )
 
 func init() {
@@ -230,7 +231,86 @@ func mutationSubject(g *G, name string) (*genetics.Genome, *Pool, string) {
 		family += "/large-mostly-disabled"
 		grownReg = reg
 	}
+	if name == "mutAddNode" && g.chance(0.15) {
+		// hand-built large genome in which almost every gene is ineligible for splitting (leaves the bias node, or is
+		// disabled): the retry-based selection of add-node (>= 15 genes) runs out of tries or finds the rare eligible gene
+		gn, grownReg = ineligibleHeavyGenome(g)
+		family = "hand/large-ineligible"
+	}
 	return gn, p, family
+}
+
+// ineligibleHeavyGenome: 1 bias, 1-2 inputs, 1-2 outputs, 6-10 hidden; bias -> every neuron (enabled), the other genes disabled
+// except for 0-2; returned with a registry whose counters lie above the genome's numbers
+func ineligibleHeavyGenome(g *G) (*genetics.Genome, *genetics.Population) {
+	tr := neat.NewTrait()
+	tr.Id = 1
+	traits := []*neat.Trait{tr}
+	var nodes []*network.NNode
+	id := 1
+	bias := network.NewSensorNode(id, true)
+	nodes = append(nodes, bias)
+	id++
+	var ins, neurons []*network.NNode
+	for i := 0; i < 1+g.intn(2); i++ {
+		n := network.NewSensorNode(id, false)
+		nodes, ins = append(nodes, n), append(ins, n)
+		id++
+	}
+	mk := func(kind network.NodeNeuronType) {
+		n := network.NewNNode(id, kind)
+		n.ActivationType = exactActivators[g.intn(len(exactActivators))]
+		nodes, neurons = append(nodes, n), append(neurons, n)
+		id++
+	}
+	for i := 0; i < 1+g.intn(2); i++ {
+		mk(network.OutputNeuron)
+	}
+	for i := 0; i < 6+g.intn(5); i++ {
+		mk(network.HiddenNeuron)
+	}
+	var genes []*genetics.Gene
+	inn := int64(1)
+	add := func(a, b *network.NNode, en bool) {
+		w := (g.f64() - 0.5) * 4
+		x := genetics.NewGeneWithTrait(tr, w, a, b, false, inn, w)
+		x.IsEnabled = en
+		genes = append(genes, x)
+		inn++
+	}
+	for _, n := range neurons {
+		add(bias, n, true)
+	}
+	eligible := g.intn(3)
+	for _, in := range ins {
+		for _, n := range neurons {
+			if g.chance(0.6) {
+				en := eligible > 0 && g.chance(0.15)
+				if en {
+					eligible--
+				}
+				add(in, n, en)
+			}
+		}
+	}
+	for len(genes) < 15 {
+		add(neurons[g.intn(len(neurons))], neurons[0], false)
+	}
+	// duplicates of (src,dst) may have been produced by the filler loop: drop them
+	seen := map[[2]int]bool{}
+	kept := genes[:0]
+	for _, x := range genes {
+		k := [2]int{x.Link.InNode.Id, x.Link.OutNode.Id}
+		if !seen[k] {
+			seen[k] = true
+			kept = append(kept, x)
+		}
+	}
+	genes = kept
+	gn := genetics.NewGenome(g.intn(100), traits, nodes, genes)
+	reg := genetics.VerifNewEmptyPopulation()
+	genetics.VerifPopSetCounters(reg, inn+int64(g.intn(3)), int32(id+g.intn(3)))
+	return gn, reg
 }
 
 func opMutate(g *G, name string) (interface{}, []uint64, int, interface{}) {
